@@ -1014,6 +1014,9 @@ func TestVerifC12(t *testing.T) {
 				}
 			}
 			r.Outcome("build:" + strings.Fields(buildOut)[0])
+			if buildOut == "TIMEOUT" {
+				continue // a call that did not return within 10 s (machine load) has no verdict: recorded as not exhaustive, never judged
+			}
 			if refOK && !buildPanicked && berr == nil {
 				// the wallet returns a submission => the presented credentials are a complete selection
 				var presented []cred
@@ -1121,6 +1124,9 @@ func TestVerifC12(t *testing.T) {
 				continue
 			}
 			r.Outcome("match:" + out)
+			if out == "TIMEOUT" {
+				continue // no verdict (see above)
+			}
 			if !refOK {
 				unjudged++
 				continue
@@ -1343,7 +1349,9 @@ func TestVerifC12(t *testing.T) {
 						return "err: " + err.Error()
 					}
 					return "ok"
-				}); p || o != "ok" {
+				}); !p && o == "TIMEOUT" {
+					continue // no verdict
+				} else if p || o != "ok" {
 					r.Violation("C12|validate|own-envelope-not-parsed", "the presentation of a matched selection is not parsed as envelope: "+o, mk(env.name))
 					continue
 				}
@@ -1390,6 +1398,9 @@ func TestVerifC12(t *testing.T) {
 					doc = asDoc
 				}
 				o, _ := validate(correct)
+				if o == "TIMEOUT" {
+					continue // no verdict
+				}
 				if !single && o == "rejected" && len(env.entries) > 0 {
 					// array envelopes are never produced by the node's own wallet; the harness writes their submission per the
 					// PEX specification. A presentation inside an array is addressed as ldp_vp by this implementation even when it is a JWT.
@@ -1763,8 +1774,8 @@ func holderCase(r *ev.Run, guard func(string, func() string) (string, bool), hw 
 		return
 	}
 	r.Outcome("holder-" + vpFormat + ":" + o)
-	if berr != nil || vp == nil || sub == nil {
-		return
+	if o == "TIMEOUT" || berr != nil || vp == nil || sub == nil {
+		return // TIMEOUT: no verdict (recorded as not exhaustive by guard)
 	}
 	subRaw, _ := json.Marshal(sub)
 	rp.SubJSON = subRaw
@@ -1793,6 +1804,9 @@ func holderCase(r *ev.Run, guard func(string, func() string) (string, bool), hw 
 		return
 	}
 	r.Outcome("holder-validate:" + strings.Fields(verdict)[0])
+	if verdict == "TIMEOUT" {
+		return // no verdict
+	}
 	// the harness's own resolution of the wallet's descriptor map inside the presentation the wallet produced
 	var envView any
 	if vp.Format() == vc.JWTPresentationProofFormat {
